@@ -54,7 +54,8 @@ Arrive(s, r) ==
            e == s.ep[p] IN
        {IF e.cnt < EL THEN [s EXCEPT !.ep[p].cnt = e.cnt + 1, !.adm[r] = TRUE, !.pc[r] = "waitEP", !.arr = Append(s.arr, r)]
         ELSE [s EXCEPT !.ep[p].q = Append(e.q, r), !.pc[r] = "waitEP", !.arr = Append(s.arr, r)]}
-Cancel(s, r) == IF s.pc[r] \in {"idle", "done"} \/ s.can[r] THEN {} ELSE {[s EXCEPT !.can[r] = TRUE]}
+\* (also before the request arrives: a request may be issued with a context that is already done)
+Cancel(s, r) == IF s.pc[r] = "done" \/ s.can[r] THEN {} ELSE {[s EXCEPT !.can[r] = TRUE]}
 Finish(s, r) == IF s.pc[r] = "inDo" THEN {[s EXCEPT !.pc[r] = "relSem", !.ok[r] = TRUE]} ELSE {}
 \* the wrapped do function of r returns at the very instant the context of c, which waits for the same endpoint, is
 \* cancelled: the library's steps that follow see both at once (c's select finds its channel closed AND its context done)
